@@ -1,6 +1,7 @@
 import OhkamiModel.M.SessionProofs
 import OhkamiModel.M.SessionSeg
 import OhkamiModel.GenConsts
+import OhkamiModel.GenSession
 /-! # C06 — property theorems about reads and segmentation in the session-loop model -/
 namespace C06
 open Ohkami Ohkami.Session
@@ -75,5 +76,25 @@ example : SegExact (postHead ++ [97], [[98], [99]]) := by
 /-- the announced length is judged (413) before any of the body is loaded, wherever its bytes are — the order the session model's `finish` assumes, read off
 `Request::read` by the translator on every run: a limit applied only when the body still has to be fetched would make the answer depend on the segmentation -/
 theorem source_limits_before_loading : Ohkami.Gen.limitCheckedBeforeLoading = true := by decide
+
+/-- **No byte of a refused request is attributed to another request.**  When the read that starts a request is refused (400, 413, ...), the
+response is written and the session ends: whatever follows on the connection — the rest of that request's body, in any pieces, or anything
+else — is never read as a request and nothing more is written, for every application and every continuation `junk`.  (Where a refused
+request ends is not known to the parser; before fix of `Session::manage` the loop went on and took those bytes for the next request, so the
+responses depended on how much of the body had come with the head.) -/
+theorem refused_ends_session (app : App) (fuel : Nat) (res : Residue) (f : Bytes) (junk : List Bytes) (eof : Bool) (st : Nat)
+    (hne : f ≠ []) (hlen : f.length ≤ BUF) (hp : Http.parse f [] = .reject st) :
+    run app (fuel + 1) res ⟨f :: junk, eof⟩ = ([app.reject st], .connClose) := by
+  have hrs := readSome_cons f junk hne
+  unfold BUF at hrs hlen
+  simp only [hlen, if_true, List.take_of_length_le hlen] at hrs
+  have hp' := (parse_more f [] junk.flatten).2 st hp
+  simp only [List.nil_append] at hp'
+  simp only [run, hrs, hp']
+
+/-- the loop the theorems are about is the loop of the source: the arms of the match on `Request::read` in `Session::manage`, read off by the translator on
+every run — a refused request is answered, then the loop is left unconditionally; so is it when no request came -/
+theorem source_ends_session_after_refusal :
+    Ohkami.Gen.refusalIsAnswered = true ∧ Ohkami.Gen.refusalEndsSession = true ∧ Ohkami.Gen.noRequestEndsSession = true := by decide
 
 end C06
